@@ -808,3 +808,18 @@ func pathAvoiding(c *Ctx, fn *ssa.Function, from ssa.Instruction, barrier, goal 
 	}
 	return nil
 }
+
+// pathAvoidingFromBlock is pathAvoiding starting at the first instruction of block b (inclusive).
+func pathAvoidingFromBlock(c *Ctx, fn *ssa.Function, b *ssa.BasicBlock, barrier, goal func(ssa.Instruction) bool) []string {
+	if len(b.Instrs) == 0 {
+		return nil
+	}
+	first := b.Instrs[0]
+	if barrier(first) {
+		return nil
+	}
+	if goal(first) {
+		return []string{c.blockDesc(b), "reaches " + shortInstr(first) + " at " + c.Pos(posOf(first))}
+	}
+	return pathAvoiding(c, fn, first, barrier, goal)
+}
